@@ -194,6 +194,23 @@
  "native": true
 }
 */
+/* VERIF-UNIT
+{
+ "name": "gen64_compare",
+ "props": ["C16"],
+ "level": "U/iter",
+ "tier": "wip",
+ "harness": "h_gen_cmp",
+ "enforce": ["ext2fs_compare_generic_bmap"],
+ "loop_contracts": true,
+ "functions": ["lib/ext2fs/gen_bitmap64.c:ext2fs_compare_generic_bmap"],
+ "assumes": ["both bitmaps use the harness model backend (set semantics at one ghost cluster each)",
+             "legacy 32-bit magic excluded (dispatch to gen_bitmap.c)",
+             "0 <= cluster_bits <= 32, start <= end <= real_end, real_end < 2^62 >> cluster_bits"],
+ "backend": "kissat",
+ "native": false
+}
+*/
 #include "gen64_common.h"
 
 /* ------------------------------------------------------------------ single-bit operations
@@ -510,5 +527,54 @@ void h_gen_pass(void)
 		if (g && IS64M(IN.magic) && r != 0) REACH("fudge beyond real_end");
 #endif
 	}
+	REACH("end");
+}
+
+/* ------------------------------------------------------------------ compare
+ * Property: two bitmaps compare equal (0) only if they have the same range and the same members:
+ * pointwise, ret == 0 => for the ghost cluster k in [start, end]: member_A(k) == member_B(k).
+ * Different ranges -> neq; invalid handles / different kinds -> EINVAL; the result is 0 or neq otherwise;
+ * comparing changes neither set. */
+#ifdef VERIF_UNIT_gen64_compare
+static int pre_cmp(ext2fs_generic_bitmap a, ext2fs_generic_bitmap b)
+{
+	return (a == 0 || (a == (ext2fs_generic_bitmap)&BMA && WF64(a, &MODEL_OPS, &verif_g0))) &&
+	       (b == 0 || (b == (ext2fs_generic_bitmap)&BMB && WF64(b, &MODEL_OPS, &verif_g1))) &&
+	       verif_g0 <= 1 && verif_g1 <= 1 && G_CALLS == 0 && G_WARN == 0;
+}
+static int spec_cmp(errcode_t neq, ext2fs_generic_bitmap a, ext2fs_generic_bitmap b, errcode_t ret,
+		    unsigned long long old0, unsigned long long old1)
+{
+	if (verif_g0 != old0 || verif_g1 != old1)
+		return 0;
+	if (!a || !b || B64(a)->magic != B64(b)->magic || !IS64M(B64(a)->magic))
+		return ret == EINVAL;
+	if (B64(a)->start != B64(b)->start || B64(a)->end != B64(b)->end)
+		return ret == neq;
+	return (ret == 0 || ret == neq) &&
+	       (ret != 0 || !(verif_k >= B64(a)->start && verif_k <= B64(a)->end) || verif_g0 == verif_g1);
+}
+unsigned long long verif_old0, verif_old1;
+errcode_t ext2fs_compare_generic_bmap(errcode_t neq, ext2fs_generic_bitmap gen_bm1, ext2fs_generic_bitmap gen_bm2)
+	REQUIRES(pre_cmp(gen_bm1, gen_bm2) && verif_old0 == verif_g0 && verif_old1 == verif_g1)
+	ENSURES(spec_cmp(neq, gen_bm1, gen_bm2, RET, verif_old0, verif_old1))
+	ASSIGNS(GHOSTS);
+#endif
+
+void h_gen_cmp(void)
+{
+#ifdef VERIF_UNIT_gen64_compare
+	ext2fs_generic_bitmap a = build_a(&MODEL_OPS);
+	ASSUME(!IS32M(IN.magic2));
+	ASSUME(IN.start2 <= IN.end2 && IN.end2 <= IN.real_end);
+	fill_bitmap(&BMB, IN.magic2, IN.start2, IN.end2, IN.real_end, &MODEL_OPS, &verif_g1);
+	ext2fs_generic_bitmap b = IN.null_out ? 0 : (ext2fs_generic_bitmap)&BMB;
+	verif_old0 = verif_g0; verif_old1 = verif_g1;
+	errcode_t r = ext2fs_compare_generic_bmap(IN.neq, a, b);
+	CHECK(spec_cmp(IN.neq, a, b, r, verif_old0, verif_old1),
+	      "compare: 0 only if same range and same membership at every cluster of [start, end]; neq / EINVAL otherwise; sets unchanged");
+	if (a && b && r == 0 && IN.neq != 0) REACH("equal");
+	if (a && b && IS64M(IN.magic) && r == IN.neq && IN.start == IN.start2 && IN.end == IN.end2 && IN.neq != 0) REACH("differ in content");
+#endif
 	REACH("end");
 }
